@@ -128,6 +128,54 @@ fn main() {
             for h in hs { h.join().unwrap(); }
             done.store(1, Ordering::SeqCst);
         }
+        "int-roundtrip" => {
+            // Exhaustive supporting run for C06 (thorough tier): for EVERY i32 and EVERY u32 n, d = From(n) and each of the
+            // ten conversions back to the same type must return n and raise nothing.  The harness does not judge: it
+            // only filters; any call that does not give back n is printed as an ordinary observation line (together
+            // with the From call) for the Lean judge to reject.  Output: `# checked <count>` plus those lines.
+            use decmathlib_rs::d128::d128;
+            use decmathlib_rs::verif_hooks::to_bits;
+            let threads: u64 = args.get(2).map(|s| s.parse().expect("threads")).unwrap_or(8);
+            let stride: u64 = args.get(3).map(|s| s.parse().expect("stride")).unwrap_or(1);   // 1 = exhaustive
+            let mut hs = Vec::new();
+            for t in 0..threads {
+                hs.push(std::thread::spawn(move || {
+                    let mut bad: Vec<String> = Vec::new();
+                    let mut count: u64 = 0;
+                    let mut k: u64 = t * stride;
+                    while k < (1u64 << 32) {
+                        let ni = k as u32 as i32;
+                        let nu = k as u32;
+                        let di = d128::from(ni);
+                        let du = d128::from(nu);
+                        macro_rules! back_i { ($($f:ident),*) => { $( { let mut st = 0u32; let r = di.$f(&mut st);
+                            if r != ni || st != 0 { bad.push(format!("from_i32 - 0 I{} => D{:x} 0", ni, to_bits(&di)));
+                                bad.push(format!("{} - 0 D{:x} => I{} {:x}", stringify!($f), to_bits(&di), r, st)); } } )* } }
+                        macro_rules! back_u { ($($f:ident),*) => { $( { let mut st = 0u32; let r = du.$f(&mut st);
+                            if r != nu || st != 0 { bad.push(format!("from_u32 - 0 I{} => D{:x} 0", nu, to_bits(&du)));
+                                bad.push(format!("{} - 0 D{:x} => I{} {:x}", stringify!($f), to_bits(&du), r, st)); } } )* } }
+                        back_i!(convert_to_i32_ties_to_even, convert_to_i32_exact_ties_to_even, convert_to_i32_toward_negative,
+                                convert_to_i32_exact_toward_negative, convert_to_i32_toward_positive, convert_to_i32_exact_toward_positive,
+                                convert_to_i32_toward_zero, convert_to_i32_exact_toward_zero, convert_to_i32_ties_to_away, convert_to_i32_exact_ties_to_away);
+                        back_u!(convert_to_u32_ties_to_even, convert_to_u32_exact_ties_to_even, convert_to_u32_toward_negative,
+                                convert_to_u32_exact_toward_negative, convert_to_u32_toward_positive, convert_to_u32_exact_toward_positive,
+                                convert_to_u32_toward_zero, convert_to_u32_exact_toward_zero, convert_to_u32_ties_to_away, convert_to_u32_exact_ties_to_away);
+                        // the canonical encoding of an integer: exponent 0, coefficient |n|
+                        let want_i = ((if ni < 0 { 1u128 } else { 0 }) << 127) | (6176u128 << 113) | (ni as i64).unsigned_abs() as u128;
+                        if to_bits(&di) != want_i { bad.push(format!("from_i32 - 0 I{} => D{:x} 0", ni, to_bits(&di))); }
+                        let want_u = (6176u128 << 113) | nu as u128;
+                        if to_bits(&du) != want_u { bad.push(format!("from_u32 - 0 I{} => D{:x} 0", nu, to_bits(&du))); }
+                        count += 1;
+                        if bad.len() > 2000 { break; }
+                        k += threads * stride;
+                    }
+                    (count, bad)
+                }));
+            }
+            let mut total = 0u64;
+            for h in hs { let (c, bad) = h.join().unwrap(); total += c; for l in bad { println!("{}", l); } }
+            println!("# checked {}", total);
+        }
         "run" => {
             let stdin = std::io::stdin();
             // stdout is not kept locked here: the watchdog must be able to print its HANG line
